@@ -256,6 +256,12 @@ func anyNodeSetExpr(g *xgen.G, rt *rapid.T, ctx *xdoc.Node) xast.Expr {
 		p := g.AxisPath(ctx, xgen.PathOpts{MaxSteps: 3, AbsShare: 4, DSlash: 2})
 		if st, ok := p.Steps[len(p.Steps)-1].(*xast.Step); ok {
 			st.Preds = []xast.Expr{g.PosPred()}
+			switch rapid.IntRange(0, 3).Draw(rt, "stacked") {
+			case 0:
+				st.Preds = []xast.Expr{g.BoolPred(nil, 0), g.PosPred()} // //b[@k][last()]
+			case 1:
+				st.Preds = append(st.Preds, g.BoolPred(nil, 0))
+			}
 			if st.Abbr && (st.Axis == "self" || st.Axis == "parent") {
 				st.Abbr = false
 			}
